@@ -496,16 +496,15 @@ func (e *istioEval) principal(v string) tv {
 		}
 		return m
 	case vTD == "cluster.local":
-		// documented elsewhere as a pointer to the mesh's own trust domain; the API reference is
-		// silent, so the literal and the pointer reading are both accepted
+		// "cluster.local" in a policy is a pointer to the mesh's own trust domain and its aliases
+		// (istio.io, trust domain migration: policies written with cluster.local keep working when the
+		// mesh's trust domain is something else); a peer whose trust domain literally is cluster.local
+		// while the mesh's is not is a foreign identity and does not match
 		ptr := F
 		for _, t := range tds {
 			ptr = or3(ptr, strMatch(t+rest, peer))
 		}
-		if ptr == lit {
-			return lit
-		}
-		return U
+		return ptr
 	default:
 		if !peerInMesh || len(tds) == 1 {
 			return lit
